@@ -1086,6 +1086,19 @@ MUTANTS = [
          old="        self.len().stable_hash(state);\n        let mut combined = H::Hash::default();\n\n        for value in self {",
          new="        let mut combined = H::Hash::default();\n\n        for value in self {", nth=0,
          expect="C13.a/length-before-repetition/HashSet"),
+    dict(id="C15.a-lookup-selects-shard-by-the-other-word", prop="C15", file=ST + "intern.rs",
+         old="        let shard_index = typed_shard.shard_index(hash_128.low());", new="        let shard_index = typed_shard.shard_index(hash_128.high());", nth=0,
+         expect="C15.a/shard-selection-agrees"),
+    dict(id="C15.a-dead-entry-revived-without-publishing", prop="C15", file=ST + "intern.rs",
+         old="""                    // The weak reference is dead, we can replace it
+                    let arc = Arc::new(value);
+                    let weak = Arc::downgrade(&arc);
+
+                    entry.insert(weak);
+""", new="""                    // The weak reference is dead, we can replace it
+                    let arc = Arc::new(value);
+""", nth=0,
+         expect="C15.a/Interner::intern/double-checked-insertion"),
     # ------------------------------------------------------------------ C09.f (D5)
     dict(id="C09.f-D5-fold-heap-in-arbitrary-order", prop="C09", file=ST + "key_of_set_map/cache.rs",
          old="""        let mut ordered = log.iter().collect::<Vec<_>>();
